@@ -39,7 +39,15 @@ STATEMENTS = [
     ("create-table-other-database-comment", "CREATE TABLE IF NOT EXISTS DB2.S3.T7 (Q VARCHAR(9)) COMMENT = 'in db2'"),
     ("comment-on-other-database", "COMMENT ON TABLE DB2.S3.T7 IS 'seven {n}'"),
     ("create-schema-other-database", "CREATE SCHEMA IF NOT EXISTS DB2.S3"),
+    ("create-transient", "CREATE TRANSIENT TABLE IF NOT EXISTS T8 (I INT)"),
+    ("insert-t8", "INSERT INTO T8 VALUES ({n})"),
 ]
+# tables a user must find again once the statement creating them has succeeded (DROP only ever removes T3)
+CREATES = {
+    "create-table-comment": ("DB1", "S1", "T1"), "create-table-plain": ("DB1", "S1", "T2"), "create-or-replace-lengths": ("DB1", "S1", "T3"),
+    "create-table-other-schema": ("DB1", "S2", "T4"), "ctas": ("DB1", "S1", "T6"), "create-table-other-database-comment": ("DB2", "S3", "T7"),
+    "create-transient": ("DB1", "S1", "T8"),
+}
 MULTI_STEP = {"create-table-comment", "create-or-replace-lengths", "alter-add", "comment-on", "create-table-other-schema", "merge", "create-database", "create-table-other-database-comment", "comment-on-other-database"}
 SPELLINGS = {"upper": str.upper, "lower": str.lower, "mixed": str.capitalize}
 
@@ -96,8 +104,19 @@ DECLARED_LENGTHS = {("DB1", "S1", "T1", "V"): 10, ("DB1", "S1", "T3", "A"): 5, (
 END_MODES = ["clean-exit", "body-raises", "kill-before", "kill-after"]
 
 
-DML = {"insert", "insert-t2", "update", "delete", "merge", "commit", "rollback"}
+DML = {"insert", "insert-t2", "insert-t8", "update", "delete", "merge", "commit", "rollback"}
 LABEL_IDX = {lab: i for i, (lab, _) in enumerate(STATEMENTS)}
+
+
+def _ends_committed(hist) -> bool:
+    open_ = False
+    for i in hist:
+        lab = STATEMENTS[i][0]
+        if lab == "begin":
+            open_ = True
+        elif lab in ("commit", "rollback"):
+            open_ = False
+    return not open_
 
 
 def _valid_history(hist) -> bool:
@@ -134,8 +153,13 @@ def _case(draw, tier):
         elif lab in ("commit", "rollback"):
             open_ = False
         hist.append(LABEL_IDX[lab])
+    close_conn = draw(st.sampled_from([False, False, True]))
+    if close_conn and not open_:
+        # the connection is closed with a transaction still open: its work was never committed
+        hist += [LABEL_IDX["begin"], LABEL_IDX[draw(st.sampled_from(["insert", "insert-t2", "update"]))]]
     npoints = 8 if tier == "quick" else 40
     return {
+        "close_conn": close_conn,
         "history": hist,
         "points": draw(st.lists(st.tuples(st.sampled_from(["kill-before", "kill-after"]), st.integers(0, 200)).map(list), min_size=2, max_size=npoints)),
         "exit": draw(st.sampled_from(["clean-exit", "body-raises"])),
@@ -162,7 +186,7 @@ def _snapshot_all(fs) -> dict:
     return json.loads(json.dumps(out, default=str))
 
 
-def _child_history(dbdir: str, history: list[int], mode: str, point: int, out_path: str, spell: str = "upper") -> None:
+def _child_history(dbdir: str, history: list[int], mode: str, point: int, out_path: str, spell: str = "upper", close_conn: bool = False) -> None:
     """Runs the history under fakesnow.patch(db_path); mode: reference | clean-exit | body-raises | kill-before | kill-after."""
     import snowflake.connector
 
@@ -171,6 +195,7 @@ def _child_history(dbdir: str, history: list[int], mode: str, point: int, out_pa
 
     count = {"n": 0}
     per_stmt: list[int] = []
+    oks: list[bool] = []
 
     def hook(event: str, sql) -> None:
         if event == "execute":
@@ -199,14 +224,18 @@ def _child_history(dbdir: str, history: list[int], mode: str, point: int, out_pa
                     sql = STATEMENTS[si][1].replace("{n}", str(k))
                     try:
                         cur.execute(sql)
+                        oks.append(True)
                     except Exception as e:  # failing statements are part of a history; the reference run fails the same way
                         if "Connection" in type(e).__name__:
                             raise
+                        oks.append(False)
                     per_stmt.append(count["n"])
                     if mode == "reference":
                         mark = count["n"]
                         snaps.append(_snapshot_all(fs))
                         count["n"] = mark  # the snapshots' own engine calls do not count
+                if close_conn and mode in ("clean-exit", "body-raises"):
+                    conn.close()  # (an open transaction is dropped, not committed)
                 if mode == "body-raises":
                     raise Boom()
     except Boom:
@@ -223,7 +252,7 @@ def _child_history(dbdir: str, history: list[int], mode: str, point: int, out_pa
         except Exception as e:
             reopened = {"error": f"{type(e).__module__}.{type(e).__name__}: {str(e)[:300]}"}
     with open(out_path, "w") as f:
-        json.dump({"snaps": snaps, "calls_after_stmt": per_stmt, "reopened": reopened}, f)
+        json.dump({"snaps": snaps, "calls_after_stmt": per_stmt, "reopened": reopened, "ok": oks}, f)
 
 
 def _present(dbdir: str, dbs: list[str]) -> set[str]:
@@ -266,7 +295,7 @@ def _child_verify(dbdir: str, dbs: list[str], reconnect: str, out_path: str, spe
 
 def _fork(fn, *args) -> tuple[int, str]:
     """Run fn(*args) in a forked child. -> (exit status / -signal, stderr text)"""
-    errf = args[-1] + ".err"
+    errf = next(a for a in reversed(args) if isinstance(a, str) and a.endswith(".json")) + ".err"
     pid = os.fork()
     if pid == 0:
         try:
@@ -321,6 +350,7 @@ def run_durability(case, ctx: Ctx) -> None:
             raise RuntimeError(f"reference child failed ({st_}): {err[-1500:]}")
         ref = json.load(open(out))
         snaps, calls = ref["snaps"], ref["calls_after_stmt"]
+        ref_ok = ref.get("ok") or [True] * len(history)
         total = calls[-1]
         dbs = ["DB1", "DB2"]
         labels = [STATEMENTS[i][0] for i in history]
@@ -349,6 +379,19 @@ def run_durability(case, ctx: Ctx) -> None:
             problems = []
             for jx in states:
                 bad = []
+                # every table whose CREATE succeeded (and that was not dropped since) is listed for a reader of its database
+                exp_tables = set()
+                for j2 in range(jx):
+                    lab2 = labels[j2]
+                    if lab2 in CREATES and ref_ok[j2]:
+                        exp_tables.add(CREATES[lab2])
+                    elif lab2 == "drop" and ref_ok[j2]:
+                        exp_tables.discard(("DB1", "S1", "T3"))
+                    elif lab2 == "rollback" or lab2 == "commit":
+                        pass
+                for key in sorted(exp_tables):
+                    if key[0] in uv and not any((r[0].upper(), r[1]) == key[1:] for r in uv[key[0]]["comments"]):
+                        bad.append(f"table {'.'.join(key)} was created successfully but is not found")
                 tables_then = {(t[0], t[1].upper(), t[2]) for t in snaps[jx]["tables"]}
                 for key, want in meta[jx].items():
                     if want == "<not-asserted>" or key not in tables_then or key[0] not in uv:
@@ -369,7 +412,9 @@ def run_durability(case, ctx: Ctx) -> None:
 
         # 2. clean exit / exception in the body: everything committed is there, nothing else
         edir = fresh("exit")
-        st_, err = _fork(_child_history, edir, history, case["exit"], 0, os.path.join(root, "exit.json"), sp_first)
+        st_, err = _fork(_child_history, edir, history, case["exit"], 0, os.path.join(root, "exit.json"), sp_first, bool(case.get("close_conn")))
+        if case.get("close_conn"):
+            ctx.cls("connection-closed-before-exit" + ("-with-open-transaction" if not _ends_committed(history) else ""))
         ctx.cls(f"end:{case['exit']}", f"reconnect:{case['reconnect']}")
         if st_ != 0:
             ctx.fail(f"C18|{case['exit']}|first-process-failed", f"history {labels}: exit {st_}: {err[-600:]}")
